@@ -3,6 +3,8 @@ package obiformats
 import (
 	"bytes"
 	"errors"
+
+	"git.metabarcoding.org/obitools/obitools4/obitools4/pkg/obiiter"
 )
 
 // C04 / C18: the re-sequencing writer loops, driven through their constructors.  The goroutine they start is a
@@ -20,6 +22,9 @@ type vWriter struct {
 	afterClose   int
 	closeFails   bool
 	lostSilently bool
+	// the writer announced its completion (obiiter.WaitForLastPipe would return, a command's main would exit)
+	// although the output was not closed yet
+	doneBeforeClose bool
 }
 
 func (w *vWriter) Write(p []byte) (int, error) {
@@ -36,6 +41,9 @@ func (w *vWriter) Write(p []byte) (int, error) {
 }
 
 func (w *vWriter) Close() error {
+	if !vBlocks(func() { obiiter.WaitForLastPipe() }) {
+		w.doneBeforeClose = true
+	}
 	w.closed++
 	if w.closeFails {
 		return vErrDisk
@@ -102,6 +110,7 @@ func VerifC04_ChunkWriter(n int) {
 	}
 	vAssert(ok, "chunk-writer-each-chunk-once-in-order")
 	vAssert(w.closed == 1 && w.afterClose == 0, "chunk-writer-closed-once-after-last-write")
+	vAssert(!w.doneBeforeClose, "chunk-writer-does-not-announce-completion-before-the-output-is-closed")
 	vReach("end")
 }
 
@@ -122,6 +131,7 @@ func VerifC18_ChunkWriter(n int) {
 	faulty := w.failAt >= 0 || w.closeFails
 	vAssert(!faulty || kind == 2, "chunk-writer-output-fault-is-fatal")
 	vAssert(faulty || kind == 0, "chunk-writer-no-fault-no-error")
+	vAssert(!w.doneBeforeClose, "chunk-writer-completion-is-not-announced-before-a-close-that-may-fail")
 	if faulty {
 		vReach("faulty")
 	}
